@@ -39,7 +39,7 @@ def main():
                     break
                 open(p, "w").write(s.replace(old, new))
             else:
-                env = dict(os.environ, VERIF_REPO=d)
+                env = dict(os.environ, VERIF_REPO=d, VERIF_REPLAY_DIR=os.path.join(d, "replays"))
                 p = subprocess.run([os.path.join(VERIF, "check"), prop, "--no-evidence"] + extra, env=env, capture_output=True, text=True)
                 caught = p.returncode == 1 and "VIOLATION" in p.stdout
                 lines = [l for l in p.stdout.splitlines() if l.startswith("clause=")]
